@@ -1,0 +1,39 @@
+//go:build verif
+
+// Contracts for the deductive verifier in /verif (govc). Comment-only: this file declares nothing and is
+// compiled only under the build tag `verif`. Syntax: see /verif/DESIGN.md §2.5.
+
+package configentry
+
+//@ file compare.go
+
+// the replication order on config entries: by kind, then by name (the enterprise-meta comparison is constant in CE)
+//@ pure cfgLess(a structs.ConfigEntry, b structs.ConfigEntry) bool = strLt(a.GetKind(), b.GetKind()) || (a.GetKind() == b.GetKind() && strLt(a.GetName(), b.GetName()))
+//@ pure cfgSameID(a structs.ConfigEntry, b structs.ConfigEntry) bool = a.GetKind() == b.GetKind() && a.GetName() == b.GetName()
+
+//@ func Less
+//@ props C19
+//@ results less
+//@ ensures[spec] less <==> cfgLess(first, second)
+//@ modifies nothing
+
+//@ func EqualID
+//@ props C19
+//@ results same
+//@ ensures[spec] same <==> cfgSameID(e1, e2)
+//@ modifies nothing
+
+//@ func SameHash
+//@ props C19
+//@ results same
+//@ ensures[spec] same <==> (e1.GetHash() != 0 && e2.GetHash() != 0 && e1.GetHash() == e2.GetHash())
+//@ modifies nothing
+
+//@ file compare.go
+//@ props C19
+// M1: Less is a strict weak order whose equivalence classes are exactly the entries with equal IDs, so sorting both
+// sides with it lines equal IDs up for the merge walk.
+//@ lemma C19.less-irreflexive: forall a structs.ConfigEntry :: !cfgLess(a, a)
+//@ lemma C19.less-transitive: forall a structs.ConfigEntry, b structs.ConfigEntry, c structs.ConfigEntry :: cfgLess(a, b) && cfgLess(b, c) ==> cfgLess(a, c)
+//@ lemma C19.less-total-modulo-id: forall a structs.ConfigEntry, b structs.ConfigEntry :: cfgLess(a, b) || cfgLess(b, a) || cfgSameID(a, b)
+//@ lemma C19.same-id-incomparable: forall a structs.ConfigEntry, b structs.ConfigEntry :: cfgSameID(a, b) ==> !cfgLess(a, b) && !cfgLess(b, a)
